@@ -18,7 +18,7 @@ pub fn groups_of(prop: &str) -> (u32, bool) {
         "C10" => (grp::STATS, false),
         "C12" => (grp::CHUNKFIT, false),
         "C13" => (grp::RECLAIM, true),
-        "C14" => (grp::CLAIM | grp::CONTENT, false),
+        "C14" => (grp::CLAIM | grp::CONTENT | grp::RESTORE, false),
         "C18" => (grp::ALIGN | grp::CONTENT | grp::CONTAIN, false),
         "C17" => (grp::CONTAIN | grp::CONTENT, false),
         "C15" => (grp::MUTCOLL | grp::CONTAIN | grp::CONTENT, false),
@@ -114,6 +114,20 @@ pub fn c15_specs(thorough: bool) -> Vec<Op> {
                 for extra in [MutExtra::None, MutExtra::ExtendUnder(0), MutExtra::ExtendOver(0)] {
                     for end in [MutEnd::Finalise, MutEnd::Unwind] {
                         v.push(Op::MutColl(MutSpec { kind, elem, cap: 255, pushes: p, extra, end }));
+                    }
+                }
+            }
+        }
+    }
+    // the same vectors with a trait object as the allocator (`&mut dyn MutBumpAllocatorCoreScope`)
+    for kind in [MutKind::VecDyn, MutKind::VecRevDyn] {
+        for &elem in elems {
+            for &cap in caps {
+                for &p in pushes {
+                    for extra in [MutExtra::None, MutExtra::Reserve(50)] {
+                        for end in [MutEnd::Drop, MutEnd::Unwind, MutEnd::Finalise, MutEnd::FinaliseBoxed] {
+                            v.push(Op::MutColl(MutSpec { kind, elem, cap, pushes: p, extra, end }));
+                        }
                     }
                 }
             }
